@@ -11,21 +11,25 @@ import (
 
 // GenCfg shapes the random schedules.
 type GenCfg struct {
-	N            int // replicas attached at start (>=1)
-	MaxReps      int // late attachers may raise the number up to this
-	Steps        int
-	Profile      gen.Profile
-	SplitSyncPct int // percent of sync actions that are split into begin/end with steps in between
-	PushOnlyPct  int
-	DetachPct    int // detach followed (later) by a fresh re-attach
-	QuiescePct   int
-	UndoPct      int
-	Offline      bool // one replica goes offline (edits only) for a long stretch
-	PresencePct  int
-	MultiEditPct int                                     // percent of edit steps that put 2-3 edits in one Update
-	EditPct      int                                     // default 60
-	Guard        func(w *World, r int, e *gen.Edit) bool // returns false to veto an edit (known-finding fences)
-	WireNoGCPct  int                                     // percent of attaches that opt out of GC on the wire (such replicas only make counter / primitive edits)
+	N             int // replicas attached at start (>=1)
+	MaxReps       int // late attachers may raise the number up to this
+	Steps         int
+	Profile       gen.Profile
+	SplitSyncPct  int // percent of sync actions that are split into begin/end with steps in between
+	PushOnlyPct   int
+	DetachPct     int // detach followed (later) by a fresh re-attach
+	QuiescePct    int
+	UndoPct       int
+	Offline       bool // one replica goes offline (edits only) for a long stretch
+	PresencePct   int
+	MultiEditPct  int                                     // percent of edit steps that put 2-3 edits in one Update
+	EditPct       int                                     // default 60
+	Guard         func(w *World, r int, e *gen.Edit) bool // returns false to veto an edit (known-finding fences)
+	WireNoGCPct   int                                     // percent of attaches that opt out of GC on the wire (such replicas only make counter / primitive edits)
+	FirstNoPres   bool                                    // the document is created with disable_presence
+	OtherPresPct  int                                     // percent of later attaches that ask for the other disable_presence value
+	DeactivatePct int                                     // percent of "detach" actions that are a server-side deactivation instead
+	HostilePct    int                                     // percent chance per attach (presenceless docs) that the replica keeps sending presence anyway
 }
 
 // noGCProfile is what a replica attached with disable_gc may do (docs/design/disable-gc-on-attach.md).
@@ -41,17 +45,23 @@ func (w *World) RunGenerated(rng *rand.Rand, g GenCfg) History {
 	if g.EditPct == 0 {
 		g.EditPct = 60
 	}
-	do(Step{T: "attach", R: 0, Pres: map[string]string{"n": "r0"}})
+	do(Step{T: "attach", R: 0, Pres: map[string]string{"n": "r0"}, NoPres: g.FirstNoPres})
 	do(Step{T: "edit", R: 0, E: gen.InitEdits()})
 	do(Step{T: "sync", R: 0})
 	noGC := map[int]bool{}
 	for i := 1; i < g.N; i++ {
-		st := Step{T: "attach", R: i, Pres: map[string]string{"n": fmt.Sprintf("r%d", i)}}
+		st := Step{T: "attach", R: i, Pres: map[string]string{"n": fmt.Sprintf("r%d", i)}, NoPres: g.FirstNoPres}
+		if rng.Intn(100) < g.OtherPresPct {
+			st.NoPres = !g.FirstNoPres
+		}
 		if rng.Intn(100) < g.WireNoGCPct {
 			st.WireNoGC = true
 			noGC[i] = true
 		}
 		do(st)
+		if g.FirstNoPres && rng.Intn(100) < g.HostilePct {
+			do(Step{T: "hostile-presence", R: i})
+		}
 	}
 	offline := -1
 	offlineLeft := 0
@@ -63,7 +73,10 @@ func (w *World) RunGenerated(rng *rand.Rand, g GenCfg) History {
 	for s := 0; s < g.Steps && !w.Dead; s++ {
 		// occasionally bring in a late attacher or re-attach a detached one
 		if len(w.Reps) < g.MaxReps && rng.Intn(100) < 3 {
-			st := Step{T: "attach", R: len(w.Reps), Pres: map[string]string{"n": "late"}}
+			st := Step{T: "attach", R: len(w.Reps), Pres: map[string]string{"n": "late"}, NoPres: g.FirstNoPres}
+			if rng.Intn(100) < g.OtherPresPct {
+				st.NoPres = !g.FirstNoPres
+			}
 			if rng.Intn(100) < g.WireNoGCPct {
 				st.WireNoGC = true
 				noGC[st.R] = true
@@ -74,7 +87,11 @@ func (w *World) RunGenerated(rng *rand.Rand, g GenCfg) History {
 		if len(detached) > 0 && rng.Intn(100) < 30 {
 			for r := range detached {
 				delete(detached, r)
-				do(Step{T: "attach", R: r, Pres: map[string]string{"n": "again"}, WireNoGC: noGC[r]})
+				if !w.Reps[r].Activated {
+					// deactivated earlier: a new client identity is needed
+					continue
+				}
+				do(Step{T: "attach", R: r, Pres: map[string]string{"n": "again"}, WireNoGC: noGC[r], NoPres: g.FirstNoPres})
 				break
 			}
 			continue
@@ -174,8 +191,12 @@ func (w *World) RunGenerated(rng *rand.Rand, g GenCfg) History {
 				}
 			}
 			if others >= 1 && r.Pending == nil {
-				do(Step{T: "detach", R: ri})
-				detached[ri] = true
+				if rng.Intn(100) < g.DeactivatePct {
+					do(Step{T: "deactivate", R: ri})
+				} else {
+					do(Step{T: "detach", R: ri})
+					detached[ri] = true
+				}
 			} else {
 				w.GuardVetoes["detach_last_participant"]++
 			}
